@@ -17,7 +17,7 @@ impl ProgProperty for C17 {
         "fault_enumeration"
     }
     fn rule(&self) -> String {
-        "roaming / structured programs (halting canonical run) x input x width x back end x level; the run is first executed under the guard-page allocator without failure to count its allocations, then again with one request refused (returns null): the k-th zero-initialised allocation (tape and interpreter-context requests; k drawn over all of them, or every k in the thorough tier for programs with <= 12 such requests) or, for a quarter of the cases, the k-th allocation of any kind. Oracle on how the child process ends: SIGABRT (allocation-failure abort) or a Rust panic = pass; SIGSEGV/SIGBUS/SIGILL, or a normal return after the refusal = violation; the events logged before the end must be a canonical prefix. Non-trivial: the refused request is a tape re-allocation (an older non-empty tape exists); distinct = distinct (program, input, width, back end, level, k)".into()
+        "roaming / structured programs (halting canonical run) x input x width x back end x level; the run is first executed under the guard-page allocator without failure to count its allocations, then again with one request refused (returns null): the k-th zero-initialised allocation (tape and interpreter-context requests; k drawn over all of them, or every k in the thorough tier for programs with <= 12 such requests) or, for a quarter of the cases, the k-th allocation of any kind. Oracle on how the child process ends: SIGABRT (allocation-failure abort) or a Rust panic = pass; SIGSEGV/SIGBUS/SIGILL = violation; a normal return after the refusal is a violation unless the log is the complete canonical sequence (the failure was then evidently handled without harm, e.g. by a successful retry); the events logged before the end must be a canonical prefix. Non-trivial: the refused request is a tape re-allocation (an older non-empty tape exists); distinct = distinct (program, input, width, back end, level, k)".into()
     }
     fn assumptions(&self) -> Vec<String> {
         vec!["the guard-page allocator unmaps freed blocks and fences live ones, so touching a null, stale or foreign tape faults instead of passing silently".into()]
@@ -91,7 +91,15 @@ impl ProgProperty for C17 {
             stats.class(if zeroed { "refused:zeroed" } else { "refused:any-kind" });
             match (&o.end, &run.exit) {
                 (End::Returned(_), _) => {
-                    return Some(Outcome::Fail(Fail { kind: "continued-after-alloc-failure".into(), detail: format!("{desc} the call returned normally although the allocator refused a request (size,live,zeroed = {refused})"), cfg: None }));
+                    // The call came back although a request was refused. That is harmless only if the failure was
+                    // handled without losing anything (e.g. a successful retry with another size): the log must then
+                    // be the complete canonical sequence. Anything else means execution went on with a tape that
+                    // is not the one the program needs.
+                    if o.events != r.events {
+                        return Some(Outcome::Fail(Fail { kind: "continued-after-alloc-failure".into(), detail: format!("{desc} the call returned normally after the allocator refused a request (size,live,zeroed = {refused}) with {} of {} canonical events", o.events.len(), r.events.len()), cfg: None }));
+                    }
+                    stats.class("returned-with-complete-output-after-refusal(handled)");
+                    continue;
                 }
                 (End::Panicked(_), _) => stats.class("ended-by-panic"),
                 (End::Cut, Exit::Signal(s)) if *s == libc::SIGABRT => stats.class("ended-by-abort"),
